@@ -40,7 +40,18 @@ func isLenOf(v ssa.Value, s ssa.Value) bool {
 		return false
 	}
 	bi, ok := cl.Call.Value.(*ssa.Builtin)
-	return ok && bi.Name() == "len" && len(cl.Call.Args) == 1 && cl.Call.Args[0] == s
+	return ok && bi.Name() == "len" && len(cl.Call.Args) == 1 && sameSliceValue(cl.Call.Args[0], s)
+}
+
+// sameSliceValue: identical values, or two loads of the same field of the same object (a field re-read in the loop
+// condition; the rules using this establish separately that the field is not reassigned meanwhile).
+func sameSliceValue(a, b ssa.Value) bool {
+	if a == b {
+		return true
+	}
+	ba, fa, oka := fieldLoad(a)
+	bb, fb, okb := fieldLoad(b)
+	return oka && okb && fa == fb && ba == bb
 }
 
 // indexLoopOf recognises the loop whose index idx is used to address slice s: the rotated form go/ssa builds for
